@@ -4,6 +4,7 @@ import (
 	"encoding/json"
 	"fmt"
 	"reflect"
+	"sort"
 	"strconv"
 	"time"
 
@@ -223,7 +224,7 @@ func Convert(value any, typ reflect.Type) (any, error) { //nolint: gocyclo
 			return result.Interface(), nil
 		case reflect.Map:
 			result := reflect.MakeSlice(typ, 0, rv.Len())
-			for _, key := range rv.MapKeys() {
+			for _, key := range SortedMapKeys(rv) {
 				item, err := Convert(rv.MapIndex(key).Interface(), typ.Elem())
 				if err != nil {
 					return nil, err
@@ -243,6 +244,21 @@ func Convert(value any, typ reflect.Type) (any, error) { //nolint: gocyclo
 		}
 	}
 	return nil, conversionError("", value, typ)
+}
+
+// SortedMapKeys returns the keys of a map in a fixed order (strings
+// lexically, other keys by their printed form), so that whatever iterates a
+// map does not depend on Go's randomised map iteration order.
+func SortedMapKeys(rv reflect.Value) []reflect.Value {
+	keys := rv.MapKeys()
+	name := func(k reflect.Value) string {
+		if k.Kind() == reflect.String {
+			return k.String()
+		}
+		return fmt.Sprint(k.Interface())
+	}
+	sort.SliceStable(keys, func(i, j int) bool { return name(keys[i]) < name(keys[j]) })
+	return keys
 }
 
 // MustConvert is like Convert, but panics if conversion fails.
